@@ -24,6 +24,10 @@
         returns the true block count for NULL arrays, and reports exactly the extents the format specification
         defines, cut to the caller's capacity.
 
+    (9) palinfo_exact, attr_lookup_by_whole_name: the walk of GRgetpalinfo (guard regenerated from the source) fills
+        exactly the first pal_count palette descriptors; the attribute search of SDgetattdatainfo (comparison
+        regenerated from the source) selects by the whole name.
+
     What rests on the correspondence run only (checks/C02.py): that the files produced by whole histories of
     H / V / SD / GR / AN calls satisfy WellFormed and re-read to the library's own answers (a state-machine model
     of hfile.c / hfiledd.c histories is C01's and C12's subject); the SD / GR convention layer beyond the
@@ -173,6 +177,20 @@ Theorem datainfo_exact : forall blk pre lastrefs blen total first cap exts,
 Proof. exact hl_getdatainfo_exact. Qed.
 Print Assumptions datainfo_exact.
 
+(* ---- (9) palettes and attributes ------------------------------------------------------------------------ *)
+(** GRgetpalinfo (loop guard regenerated from hdatainfo.c): for every directory and every array size it fills the
+    first pal_count palette descriptors, in directory order, and returns how many it filled -- never more than the
+    caller's array holds *)
+Theorem palinfo_exact : forall ds n, 0 <= n -> gr_getpalinfo ds n = pal_answer ds (Some n).
+Proof. exact gr_getpalinfo_exact. Qed.
+Print Assumptions palinfo_exact.
+
+(** SDgetattdatainfo (name comparison regenerated from mfdatainfo.c): the Vdata it reports is the first attribute
+    Vdata whose name is EXACTLY the requested name *)
+Theorem attr_lookup_by_whole_name : forall members name, sd_attr_lookup members name = attr_find members name.
+Proof. exact sd_attr_lookup_exact. Qed.
+Print Assumptions attr_lookup_by_whole_name.
+
 (* ==== non-vacuity: every hypothesis above is met by a concrete, non-trivial object ======================== *)
 Definition ex_dd : dd := mkdd 16484 7 310 16.            (* a special (linked) descriptor *)
 Example ex_dd_ok : dd_ok ex_dd /\ p_dd (dd_encode ex_dd ++ [9]) = Some (ex_dd, [9]).
@@ -248,3 +266,13 @@ Example ex_datainfo_run :
   hl_getdatainfo ex_blk (ex_pre ++ [(0, ex_last)]) 3 11 (Some 9) = Some (3, [(100, 4); (110, 3); (130, 1)]) /\
   hl_getdatainfo ex_blk (ex_pre ++ [(0, ex_last)]) 3 11 None = Some (3, []).
 Proof. repeat split; vm_compute; reflexivity. Qed.
+
+(** three palette descriptors, an array of two entries; two attributes of which one name is a prefix of the other *)
+Example ex_palinfo :
+  gr_getpalinfo [mkdd 201 1 100 768; mkdd 30 1 58 92; mkdd 301 1 100 768; mkdd 301 2 900 768] 2
+  = (2, [mkdd 201 1 100 768; mkdd 301 1 100 768]).
+Proof. vm_compute. reflexivity. Qed.
+Example ex_attr_prefix :
+  sd_attr_lookup [(attr_class, [117; 110; 105; 116; 115; 95; 108], 7); (attr_class, [117; 110; 105; 116; 115], 9)]
+                 [117; 110; 105; 116; 115] = Some 9.
+Proof. vm_compute. reflexivity. Qed.
